@@ -107,12 +107,43 @@ def gen_doc(rng):
     for f in fn_ids:
         if rng.random() < 0.85:
             defs.append('[^%s]: Footnote %s %s' % (f, w(), call() if rng.random() < 0.3 else w()))
+    # entries that themselves call notes: the lists are written footnotes, glossary, citations -- a call to a list written later (or to the one being
+    # written) is picked up when that list is written; a call to a list already written (d.late) has nowhere to go (recorded finding)
+    d.late = set()
+
+    def later_call(kinds):
+        k = rng.choice(kinds)
+        if k == 'c' and cn_ids:
+            c = rng.choice(cn_ids)
+            return ('[Not cited][#%s]' if c in not_cited else '[#%s]') % c
+        if k == 'g' and gn_ids:
+            return '[?%s]' % rng.choice(gn_ids)
+        if k == 'f' and fn_ids:
+            return '[^%s]' % rng.choice(fn_ids)
+        return w()
     for c in cn_ids:
         if rng.random() < 0.9:
-            defs.append('[#%s]: Author %s. *Book %s*.' % (c, w(), w()))
+            extra = ''
+            x = rng.random()
+            if x < 0.15:
+                extra = ' See ' + later_call(['c'])
+            elif x < 0.22:
+                k = rng.choice(['f', 'g'])
+                extra = ' See ' + later_call([k])
+                if extra.startswith(' See ['):
+                    d.late.add('footnote' if k == 'f' else 'glossary')
+            defs.append('[#%s]: Author %s. *Book %s*.%s' % (c, w(), w(), extra))
     for g in gn_ids:
         if rng.random() < 0.9:
-            defs.append('[?%s]: Glossary %s' % (g, w()))
+            extra = ''
+            x = rng.random()
+            if x < 0.3:
+                extra = ' see ' + later_call(['c', 'c', 'g'])
+            elif x < 0.37:
+                extra = ' see ' + later_call(['f'])
+                if extra.startswith(' see ['):
+                    d.late.add('footnote')
+            defs.append('[?%s]: Glossary %s%s' % (g, w(), extra))
     rng.shuffle(defs)
     meta = ''
     if rng.random() < 0.2:
@@ -161,6 +192,10 @@ def analyse(r, html, d, ext, case, tag=''):
         cause = ''
         if ext & E['RANDOM_LABELS'] and key.startswith('crossref-') and key != 'crossref-dangling:link':
             cause = ':manual-label-present' if has_manual else ''
+        m = re.match(r'(footnote|glossary)-(call-unresolved|backlink-dangling|entries-not-1\.\.n)', key)
+        if m and m.group(1) in d.late:
+            r.violate(key + ':called-from-an-entry-of-a-list-written-later', what, case, core.show(d.src, 700))
+            return
         r.violate(key + suffix + cause + (':' + tag if tag == 'second-export' else ''), what, case, core.show(d.src, 700))
     calls = 0
     for kind, name in KIND.items():
@@ -315,6 +350,9 @@ def epub_nav(r, s, d, ext):
         main = z.read('OEBPS/main.xhtml').decode('utf-8', 'replace')
     except Exception:
         return
+    # main.xhtml is written by the HTML writer through its own branch of the exporter: the same reference checks apply to it
+    calls, links = analyse(r, main.encode('utf-8'), d, ext | E['COMPLETE'], dict(requests=[rq], member='OEBPS/main.xhtml'), tag='epub-main')
+    r.stats['epub_main_note_calls_checked'] += calls
     ids = set(re.findall(r'\bid="([^"]*)"', main))
     targets = re.findall(r'href="main\.xhtml#([^"]*)"', nav)
     r.stats['epub_nav_links_checked'] += len(targets)
